@@ -2,7 +2,7 @@
 from .. import env, histgen, session, wire, refmatch as rm
 from ..runner import Prop, Stage, Result
 
-PROFILE = dict(reuse=0.7, weights=dict(newer=4, delete=16, bind=14, message=50, server_event=10, deep=4, sync=6))
+PROFILE = dict(reuse=0.7, weights=dict(newer=4, nulls=12, delete=16, bind=14, message=46, server_event=10, deep=4, sync=6))
 
 
 def universe(specs, dialect):
@@ -57,10 +57,16 @@ class Semantics(Stage):
                     res.bad('documented-syntax-rejected:' + nm, '%r rejected: %s' % (txt, no_color(str(e)).splitlines()[0][:200]))
             if parsed['plain'] is None:
                 continue
+            # what a matcher selects depends on the matcher and the message only: a second instance evaluated in the opposite
+            # order must agree (state kept inside a matcher object would show here)
+            second = matcher.parse(plain).simplify()
+            rev = {id(m): second.matches(m) for m in reversed(msgs)}
             selected = 0
             for m in msgs:
                 exp = rm.ev(ast, m)
                 got = parsed['plain'].matches(m)
+                if rev[id(m)] != got:
+                    res.bad('evaluation-order-dependence', '%r on %s: %r when evaluated oldest-first, %r newest-first' % (plain, no_color(str(m)), got, rev[id(m)]))
                 res.evals += 1
                 if exp is None:
                     res.count('unspecified-by-the-documentation')
